@@ -88,4 +88,21 @@ def unwrapKey (name : String) (size : Nat) (canDerive : Bool) (enc crv : String)
   if size == 0 then Model.KW.Dir.unwrapKey true key data   -- dir: returns the key itself
   else Model.KW.AKW.unwrapKey size true key data
 
+/-- `(*KeyWrapper).DeriveKey` — the PRODUCER path.  Same derivation as UnwrapKey: the Concat KDF is fed
+    AlgorithmID, then PartyUInfo = apu, then PartyVInfo = apv (RFC 7518 §4.6.2 fixes this order
+    regardless of which party computes).  Direct mode returns (derived key, empty encrypted key);
+    key wrapping mode draws a CEK of cekSize(enc) octets from crypto/rand — here the argument `cek`
+    (its freshness is C19's subject) — and returns (cek, AKW.wrap(derived key, cek)). -/
+def produceKey (name : String) (size : Nat) (canDerive : Bool) (enc crv : String)
+    (priv pub apu apv cek : Bytes) : PO (Bytes × Bytes) := do
+  if !canDerive then PO.fail "not-allowed" else
+  let size' := if size == 0 then cekSize enc else size
+  let algID := if name != "" then Bytes.ofString name else Bytes.ofString enc
+  let z ← deriveZ crv priv pub
+  let key ← deriveKey z algID apu apv size'
+  if name == "" then pure (key, [])
+  else do
+    let encrypted ← Model.KW.AKW.wrapKey size true key cek
+    pure (cek, encrypted)
+
 end Model.KW.ECDHES
